@@ -142,8 +142,17 @@ Fixpoint be_enc (n : nat) (x : N) : bytes :=
 Fixpoint be_dec (l : bytes) (acc : N) : N :=
   match l with [] => acc | b :: r => be_dec r (acc * 256 + b) end.
 
+(* the first n bytes and the rest (walks n elements only) *)
+Fixpoint take_nat (n : nat) (bs : bytes) : option (bytes * bytes) :=
+  match n with
+  | O => Some ([], bs)
+  | S k => match bs with
+           | [] => None
+           | b :: r => match take_nat k r with Some (p, q) => Some (b :: p, q) | None => None end
+           end
+  end.
 Definition take_n (n : nat) : M bytes := fun bs =>
-  if (n <=? length bs)%nat then (Ok (firstn n bs, skipn n bs), 0) else (Err EDeser, 0).
+  match take_nat n bs with Some pq => (Ok pq, 0) | None => (Err EDeser, 0) end.
 
 Definition ser_u8 (x : N) : bytes := [x].
 Definition de_u8 : M N := fun bs =>
@@ -204,14 +213,26 @@ Definition len_N {A} (l : list A) : N := N.of_nat (length l).
    Vec::with_capacity(len) first, pushes bytes until the input ends, then
    validates UTF-8. *)
 Definition ser_str (s : bytes) : bytes := ser_usize (len_N s) ++ s.
+(* the first n elements and the rest, or None when there are fewer than n
+   (walks at most n elements: n comes from the input and may be huge) *)
+Fixpoint split_n (bs : bytes) (n : N) : option (bytes * bytes) :=
+  match bs with
+  | [] => if n =? 0 then Some ([], []) else None
+  | b :: r =>
+    if n =? 0 then Some ([], bs)
+    else match split_n r (n - 1) with
+         | Some (p, q) => Some (b :: p, q)
+         | None => None
+         end
+  end.
 Definition de_str (c : cfg) : M bytes :=
   rd n <- de_usize;
   rd _ <- alloc c n 1;
   fun bs =>
-    if n <=? len_N bs then
-      let s := firstn (N.to_nat n) bs in
-      if utf8_valid s then (Ok (s, skipn (N.to_nat n) bs), 0) else (Err EDeser, 0)
-    else (Err EDeser, 0).
+    match split_n bs n with
+    | Some (s, r) => if utf8_valid s then (Ok (s, r), 0) else (Err EDeser, 0)
+    | None => (Err EDeser, 0)
+    end.
 
 (* Ident::deserialize (ident.rs): a String; the repaired reader rejects the
    empty identifier, which the parser never produces and on which
@@ -223,15 +244,21 @@ Definition de_ident (c : cfg) : M bytes :=
 
 (* `for _ in 0..len { v.push(T::deserialize(read)?) }`: every element reader
    consumes at least one byte, so the number of iterations that can succeed is
-   bounded by the input length; fuel = that bound + 1. *)
+   bounded by the input length and by len; fuel = min of the two + 1. *)
 Fixpoint de_list_go {A} (elem : M A) (fuel : nat) (n : N) : M (list A) :=
   if n =? 0 then ret []
   else match fuel with
        | O => fail EOutOfFuel
        | S f => rd x <- elem; rd xs <- de_list_go elem f (n - 1); ret (x :: xs)
        end.
+(* 1 + min (n, length bs), computed by walking at most n elements *)
+Fixpoint list_fuel (bs : bytes) (n : N) : nat :=
+  match bs with
+  | [] => 1%nat
+  | _ :: r => if n =? 0 then 1%nat else S (list_fuel r (n - 1))
+  end.
 Definition de_list {A} (elem : M A) (n : N) : M (list A) :=
-  fun bs => de_list_go elem (S (length bs)) n bs.
+  fun bs => de_list_go elem (list_fuel bs n) n bs.
 
 (* HashMap::insert on an association list kept in insertion order *)
 Fixpoint map_insert {V} (k : bytes) (v : V) (m : list (bytes * V)) : list (bytes * V) :=
